@@ -17,7 +17,8 @@ def good_response(draw_hex):
 
 
 HOSTS = [("example.com", "example.com"), ("EXAMPLE.com", "example.com"), ("10.1.2.3", "10.1.2.3"), ("[::1]", "::1"),
-         ("[2001:db8::7]", "2001:db8::7"), ("a-b.c1.test", "a-b.c1.test")]
+         ("[2001:db8::7]", "2001:db8::7"), ("a-b.c1.test", "a-b.c1.test"), ("[fe80::1%25eth0]", "fe80::1%25eth0"),
+         ("[::ffff:192.0.2.1]", "::ffff:192.0.2.1")]
 PORTS = [None, 80, 443, 8080, 1, 65535, 81, 444]
 PATHS = ["", "/", "/chat", "/a/b.c", "/x;y", "/p%20q"]
 QUERIES = [None, "a=1", "a=1&b=2", "q"]
